@@ -3800,6 +3800,65 @@ func timeCalls(repo string) {
 
 // ==== END timers ================================================================================================
 
+// ==== explicit aborts (C03 C10 C13) ============================================================================
+//   gen_abort_calls : (package directory, callee, count) for every call, in the non-test files of the library's
+//                     packages, of the builtin panic, os.Exit, runtime.Goexit and log.Fatal* / log.Panic*; sorted.
+// The models have no such step: a decoder returns an error, a connection ends, the server goes on.
+func abortCalls(repo string) {
+	type key struct{ pkg, callee string }
+	cnt := map[key]int{}
+	dirs := []string{"protocol/jt808", "protocol/jt1078", "protocol/model", "protocol/utils", "protocol", "service", "attachment", "terminal", "shared/consts"}
+	for _, dir := range dirs {
+		if _, err := os.Stat(filepath.Join(repo, dir)); err != nil {
+			continue
+		}
+		files := parseDir(filepath.Join(repo, dir))
+		for n, f := range files {
+			if strings.HasPrefix(n, "verif_") {
+				continue
+			}
+			ast.Inspect(f, func(x ast.Node) bool {
+				c, ok := x.(*ast.CallExpr)
+				if !ok {
+					return true
+				}
+				switch fn := c.Fun.(type) {
+				case *ast.Ident:
+					if fn.Name == "panic" {
+						cnt[key{dir, "panic"}]++
+					}
+				case *ast.SelectorExpr:
+					if id, ok := fn.X.(*ast.Ident); ok {
+						nm := id.Name + "." + fn.Sel.Name
+						if nm == "os.Exit" || nm == "runtime.Goexit" || (id.Name == "log" && (strings.HasPrefix(fn.Sel.Name, "Fatal") || strings.HasPrefix(fn.Sel.Name, "Panic"))) {
+							cnt[key{dir, nm}]++
+						}
+					}
+				}
+				return true
+			})
+		}
+	}
+	var ks []key
+	for k := range cnt {
+		ks = append(ks, k)
+	}
+	sort.Slice(ks, func(i, j int) bool {
+		if ks[i].pkg != ks[j].pkg {
+			return ks[i].pkg < ks[j].pkg
+		}
+		return ks[i].callee < ks[j].callee
+	})
+	var rows []string
+	for _, k := range ks {
+		rows = append(rows, fmt.Sprintf("(%s%%string, %s%%string, %d)", strconv.Quote(k.pkg), strconv.Quote(k.callee), cnt[k]))
+	}
+	fmt.Fprintf(&out, "\n(* explicit aborts in the library's packages *)\n")
+	fmt.Fprintf(&out, "Definition gen_abort_calls : list (string * string * N) := [%s].\n", strings.Join(rows, "; "))
+}
+
+// ==== END explicit aborts =======================================================================================
+
 func main() {
 	repo := flag.String("repo", "/repo", "repository root")
 	outp := flag.String("out", "", "output .v file")
@@ -3826,6 +3885,7 @@ func main() {
 	attachLayout(*repo) // chunk header of the attachment stream (C15)
 	fileHandler(*repo)  // file-system calls of package attachment and the save step (C19)
 	timeCalls(*repo)    // timers, sleeps and deadlines of service / attachment (C11 C12 C13)
+	abortCalls(*repo)   // explicit panic / os.Exit / log.Fatal calls (C03 C10 C13)
 	stringOps(*repo)    // String() methods: partial operations and callees (C03)
 	q := make([]string, len(unrecognised))
 	for i, u := range unrecognised {
